@@ -92,6 +92,8 @@ def pointers_for(rng, toks):
     for p in rng.sample(paths, min(len(paths), 6)):
         base = refptr.pointer_to(list(p))
         ps.append(base + rng.choice([b"/", b"/0", b"/-", b"/x", b"/01", b"/1", b"/99", b"/~0", b"/~1", b"/%s"]))
+        # an index that would land on an existing element if it were reduced modulo 2^32 or 2^64 somewhere on the way
+        ps.append(base + b"/" + str(rng.choice([1 << 64, 1 << 32, 1 << 61, 1 << 63, (1 << 64) + (1 << 32), 10 ** 20, 3 << 32]) + rng.choice([0, 0, 1, 2])).encode())
         if base:
             ps.append(base[1:])  # no leading slash
     ps += rng.sample(BAD_POINTERS, 8)
